@@ -302,6 +302,7 @@ def run(chk, repo, tier):
     run_r7(chk, repo)
     run_r9(chk, repo)
     run_r10(chk, repo)
+    run_r11_r12(chk, repo)
     run_r8(chk, repo)
 
 
@@ -563,3 +564,80 @@ def run_r10(chk, repo):
                           witness="a data item -1.2D-3 (NM-TRAN: -0.0012): ValueError could not convert string to float 'E-1.2'")
     if n == 0:
         raise AnalysisError('R10: the mantissa[+-]exponent pattern of convert_fortran_number was not found')
+
+
+def run_r11_r12(chk, repo):
+    """R11: the IGNORE/ACCEPT filters are dropped from $DATA also when only the file the record points to changed (they were
+    already applied to the data that write_csv wrote there); R12: $INPUT columns on a ratio scale (times, amounts, the dosing
+    interval II) are not given an integer datatype"""
+    from sa import reach, guards as G_
+    R11 = chk.rule('R11', 'nonmem update_source: remove_ignore()/remove_accept() run when the dataset is rewritten AND when '
+                          'datainfo.path differs from the path the record was generated for', floor=1)
+    mm = repo.module('pharmpy.model.external.nonmem.model')
+    cls = mm.classes.get('Model')
+    f = cls.methods.get('update_source') if cls else None
+    if f is None:
+        raise AnalysisError('nonmem Model.update_source not found')
+    cfg = CFG(f.node)
+    n = 0
+    for nd in cfg.nodes.values():
+        if nd.kind != 'stmt' or nd.ast is None or not any(
+                isinstance(c, ast.Call) and isinstance(c.func, ast.Attribute) and c.func.attr == 'remove_ignore'
+                for c in ast.walk(nd.ast)):
+            continue
+        n += 1
+
+        def path_changed(e):
+            if isinstance(e, ast.Compare) and len(e.ops) == 1 and isinstance(e.ops[0], ast.NotEq):
+                t = unparse(e)
+                if 'old_datainfo.path' in t and 'datainfo.path' in t.replace('old_datainfo.path', ''):
+                    return True
+            return None
+        # the removal must be reached whenever the path comparison is true: a test on the way that is true whenever the
+        # comparison is (the comparison itself, an `or` with it as one alternative, a flag defined so), removal on its true edge
+        def implied(t_, at):
+            if path_changed(t_):
+                return True
+            if isinstance(t_, ast.BoolOp) and isinstance(t_.op, ast.Or):
+                return any(implied(v, at) for v in t_.values)
+            if isinstance(t_, ast.Name):
+                vs = reach.values(cfg, at, t_.id) or []
+                return bool(vs) and all(implied(v, d) for d, v in vs)
+            return False
+        # the innermost test that controls the removal (the last one on whose true edge it lies) decides
+        ctrl = [t for t in cfg.nodes.values() if t.kind == 'test' and t.ast is not None
+                and cfg.edge_dominates(t.id, 'true', nd.id)]
+        inner = max(ctrl, key=lambda t: (t.line or 0)) if ctrl else None
+        ok = inner is not None and implied(inner.ast, inner.id)
+        chk.instance(R11, f'update_source: `{nd.text()[:60]}` is reached when only the path changed: {ok}')
+        if not ok:
+            chk.violation(R11, mm.rel, f.qualname, nd.text()[:90],
+                          'after write_csv to a new file the record keeps IGNORE/ACCEPT: they are applied a second time to data '
+                          'that pharmpy already filtered and re-formatted', line=nd.line,
+                          witness='ACCEPT=(APGR.EQ.7) on a column written back as 7.0: read, write_csv(new path), write_model, '
+                                  'read gives 0 rows')
+    if n == 0:
+        raise AnalysisError('R11: remove_ignore() not found in update_source')
+    R12 = chk.rule('R12', 'create_nonmem_datainfo: no column on a ratio scale gets an integer datatype', floor=3)
+    pm = repo.module('pharmpy.model.external.nonmem.parsing')
+    g = pm.functions.get('create_nonmem_datainfo')
+    if g is None:
+        raise AnalysisError('create_nonmem_datainfo not found')
+    n12 = 0
+    for c in calls_in(g.node):
+        if not (dotted(c.func) or '').endswith('ColumnInfo.create'):
+            continue
+        kw = {k.arg: k.value for k in c.keywords}
+        sc = kw.get('scale')
+        if isinstance(sc, ast.Constant) and sc.value == 'ratio':
+            n12 += 1
+            dt = kw.get('datatype')
+            bad = isinstance(dt, ast.Constant) and isinstance(dt.value, str) and dt.value.startswith(('int', 'uint'))
+            chk.instance(R12, f'create_nonmem_datainfo: {unparse(c)[:80]}: integer datatype {bad}')
+            if bad:
+                chk.violation(R12, pm.rel, g.name, unparse(c)[:100],
+                              'the column holds a continuous quantity: the reader truncates it to an integer without warning',
+                              line=c.lineno,
+                              witness='II = 12.5 in the data file is read as 12 (also 1.25D1), and stays so after write/read')
+    if n12 < 3:
+        raise AnalysisError(f'R12: only {n12} ratio-scale columns found in create_nonmem_datainfo')
